@@ -34,7 +34,7 @@ def run(rep: Report) -> None:
     # ---------------------------------------------------------- (a) primitives
     runs = PC.all_runs(rep.prog, rep.tier)
     rep.floor("primitive x configuration x engine runs", len(runs), FLOOR_PRIM_RUNS)
-    nz = PC.prim_normalizer()
+    nz = PC.prim_normalizer(False)
     for r in runs:
         inst = f"{r.impl} {r.prim} [{r.config}]{' N=1' if r.n1 else ''}"
         if r.raised is not None or r.term is None:
@@ -51,7 +51,7 @@ def run(rep: Report) -> None:
             key=f"P|{r.impl}|{r.prim}|{r.config}",
         )
     # ------------------------------------------------------------- (b) wiring
-    cks = wire_results(rep, "base")
+    cks = wire_results(rep, "base") + wire_results(rep, "flags", impls=("casadi", "numpy"))
     rep.floor("local-topology configurations", len(cks), FLOOR_CONFIGS)
     if not require_no_errors(rep, cks):
         return
